@@ -166,11 +166,13 @@ class Program:
         # twice with different behaviour is dropped.  The normaliser uses it to separate `y = f(x)` into `f(x); y = x`.
         returns_arg: dict[str, int | None] = {}
         refs_by_file: dict[str, set[str]] = {}
+        defs_by_file: dict[str, set[str]] = {}
         for p in files:
             try:
                 raw = ast.parse(p.read_text(), filename=str(p))
             except (SyntaxError, UnicodeDecodeError):
                 continue
+            defs_by_file[str(p)] = {x.name for x in ast.walk(raw) if isinstance(x, (ast.FunctionDef, ast.AsyncFunctionDef))}
             refs_by_file[str(p)] = {x.attr for x in ast.walk(raw) if isinstance(x, ast.Attribute)} | {x.id for x in ast.walk(raw) if isinstance(x, ast.Name)} | {a.name for x in ast.walk(raw) if isinstance(x, ast.ImportFrom) for a in x.names}
             owners = {}
             for par in ast.walk(raw):
@@ -217,7 +219,7 @@ class Program:
                 from .normalize import normalize_module
 
                 try:
-                    tree = normalize_module(tree, returns_arg=self.returns_arg, foreign_refs=set().union(*[v for k, v in refs_by_file.items() if k != str(p)]) if refs_by_file else set())
+                    tree = normalize_module(tree, returns_arg=self.returns_arg, foreign_refs=set().union(*[v for k, v in refs_by_file.items() if k != str(p)]) if refs_by_file else set(), foreign_defs=set().union(*[v for k, v in defs_by_file.items() if k != str(p)]) if defs_by_file else set())
                 except RecursionError as e:  # pragma: no cover
                     raise AnalysisError(f"normalisation of {rel} failed: {e}") from e
             _number_nodes(tree)
